@@ -2,7 +2,7 @@
    Property theorems only.  gen/CtTypes.v is regenerated from the Go struct types (reflect)
    on every run; CT/Rfc6962Spec.v is written from the RFC text. *)
 From Coq Require Import String NArith List.
-From V Require Import Base.Bytes TLS.TlsModel TLS.TlsRoundTripA gen.CtTypes CT.Rfc6962Spec CT.Rfc6962Proofs CT.CtFuncs CT.CtFuncsProofs.
+From V Require Import Base.Bytes TLS.TlsModel TLS.TlsRoundTripA gen.CtTypes CT.Rfc6962Spec CT.Rfc6962Proofs CT.CtFuncs CT.CtFuncsProofs CT.LeafExact.
 Import ListNotations.
 Local Open Scope N_scope.
 
@@ -61,6 +61,21 @@ Theorem decoders_accept_exactly_encodings : forall t v bs,
   (parse t None bs = Ok (v, []) <-> marshal t None v = Ok bs).
 Proof. exact wire_decode_exact. Qed.
 Print Assumptions decoders_accept_exactly_encodings.
+
+(* 3b. the MerkleTreeLeaf decoder accepts EXACTLY the RFC byte strings: every complete parse is
+   the RFC encoding (any version byte) of an in-range record and yields that record - or is this
+   implementation's JSON-entry extension; unknown leaf types and entry types are errors *)
+Theorem leaf_decoder_accepts_exactly_rfc : forall bs v,
+  complete gen_MerkleTreeLeaf bs = Ok v ->
+  (exists ver ts e ext, ver < 256 /\ ts_ok ts /\ entry_ok e /\ ext_ok ext /\
+       v = embed_leaf_v ver ts e ext /\ bs = enc_leaf_v ver ts e ext)
+  \/ is_json_leaf v.
+Proof. exact leaf_parse_exact_lemma. Qed.
+Print Assumptions leaf_decoder_accepts_exactly_rfc.
+Theorem leaf_rfc_encoding_decodes : forall ts e ext, ts_ok ts -> entry_ok e -> ext_ok ext ->
+  complete gen_MerkleTreeLeaf (enc_leaf ts e ext) = Ok (embed_leaf ts e ext).
+Proof. exact leaf_decodes_lemma. Qed.
+Print Assumptions leaf_rfc_encoding_decodes.
 
 (* 4. complete-parse APIs: trailing data, unknown entry types, mismatching extra data are errors *)
 Theorem entry_decoder_is_complete : forall li x leaf cert chain,
